@@ -8,7 +8,7 @@ def answer (line : String) : String :=
     match Sexp.parse (l.drop 3).toString with
     | some s =>
       let t := ofSexp s
-      showVerdict (check t) ++ " | schema=" ++ toString (schema t).length
+      showVerdict (verdict t) ++ " | schema=" ++ toString (schema t).length
     | none => "bad-plan"
   else "bad-request"
 
